@@ -1,4 +1,5 @@
 CONSTANTS
+  ReadFaultGivesUp = TRUE
   Node = {1, 2, 3}
   Db = {"d1"}
   MaxShards = 2
